@@ -242,7 +242,7 @@ def cases(ctx):
     ctx.exhaustive["type-table-and-2-step-cases"] = count
     from ..histories import HistoryGen
 
-    for i in range(ctx.pick(1500, 100000) // ctx.shard_count):
+    for i in range(ctx.pick(1500, 600000) // ctx.shard_count):
         older, newer = PAIRS[i % len(PAIRS)]
         gen = HistoryGen(rng, older)
         steps = list(rng.choice(list(STATES.values())))
